@@ -60,6 +60,7 @@ def index_declared_edges():
 def index_array_elementwise():
     """index(array)[i] == index(array[i]) for every i (any length)"""
     ice, n0, k, a, lo, hi = exp_ice()
+    _any_declared_edges(ice)
     zs = symarr("zs")
     ns = ice.index(zs)
     prove("same-length", len(ns) == len(zs))
@@ -99,9 +100,16 @@ def gradient_is_derivative():
 # depth_with_index inverts index (over the reals), clamps outside
 # ---------------------------------------------------------------------------
 
+def _any_declared_edges(ice):
+    """the declared indices above/below the range are arbitrary: the inverse must not depend on them"""
+    ice.index_above = real("declared_n_above")
+    ice.index_below = real("declared_n_below")
+
+
 @harness(clause="inverse")
 def depth_with_index_inverts():
     ice, n0, k, a, lo, hi = exp_ice()
+    _any_declared_edges(ice)
     z = real("z")
     assume(And(lo <= z, z <= hi))
     n = ice.index(z)
@@ -111,6 +119,7 @@ def depth_with_index_inverts():
 @harness(clause="inverse")
 def depth_with_index_clamps():
     ice, n0, k, a, lo, hi = exp_ice()
+    _any_declared_edges(ice)
     n = real("n")
     d = ice.depth_with_index(n)
     n_top = spec_index(n0, k, a, hi)
@@ -124,6 +133,7 @@ def depth_with_index_clamps():
 @harness(clause="inverse-array-equals-scalar")
 def depth_with_index_array():
     ice, n0, k, a, lo, hi = exp_ice()
+    _any_declared_edges(ice)
     ns = symarr("ns")
     ds = ice.depth_with_index(ns)
     prove("same-length", len(ds) == len(ns))
